@@ -312,7 +312,7 @@ def doDerive (l : Line) : Option String := do
   | "indexspace" => do
       let sh ← Term.nats? (← Term.parse (← l.get? "shape"))
       match S with
-      | .tensor t => some (showOS ((t.indexSpace sh).map .tensor))
+      | .tensor t => some (showOS ((t.indexSpace sh 0).map .tensor))
       | _ => none
   | _ => none
 
